@@ -29,12 +29,12 @@ func RunSeed(root uint64, prop string, idx int) uint64 {
 	return splitmix64(splitmix64(root^hashString(prop)) + uint64(idx)*0x9e3779b97f4a7c15)
 }
 
-// protoTag names the protocol generation a configuration pair will speak
-// ("dtls12", "dtls13", "dual"); used to keep violation signatures specific.
+// protoTag names the protocol generation a configuration pair will end up speaking: "dtls13"
+// when both sides support 1.3 (the highest common version, whatever their minimum), "dual" when
+// exactly one side offers 1.3 and the outcome is 1.2, "dtls12" otherwise. It keeps violation
+// signatures specific.
 func protoTag(c, s EpSpec) string {
 	switch {
-	case c.MaxVer == 13 && s.MaxVer == 13 && (c.MinVer == 12 || s.MinVer == 12):
-		return "dual"
 	case c.MaxVer == 13 && s.MaxVer == 13:
 		return "dtls13"
 	case c.MaxVer == 13 || s.MaxVer == 13:
